@@ -308,6 +308,15 @@ func c12ShutdownProperty(t *rapid.T, st *Stats) {
 	if !up {
 		t.Skip("listener did not come up")
 	}
+	select {
+	case err := <-runErr:
+		// Run has already returned: the port was taken between choosing and binding it (shards run side by side),
+		// whoever answered the probe is somebody else
+		st.Add("port-collision-skipped", 1)
+		_ = srv.Close()
+		t.Skip(fmt.Sprintf("Run returned at once: %v", err))
+	case <-time.After(20 * time.Millisecond):
+	}
 	stop := make(chan struct{})
 	var wg sync.WaitGroup
 	var mu sync.Mutex
